@@ -1243,7 +1243,11 @@ impl ElementRaw {
         file_version: AutosarVersion,
     ) -> Result<(), AutosarDataError> {
         // find the attribute specification in the item type
-        if let Some(AttributeSpec { spec, .. }) = self.elemtype.find_attribute_spec(attrname) {
+        if let Some(AttributeSpec { spec, version, .. }) = self.elemtype.find_attribute_spec(attrname) {
+            // the attribute must exist in the version of the file
+            if !file_version.compatible(version) {
+                return Err(AutosarDataError::InvalidAttribute);
+            }
             // the existing attribute gets updated
             if CharacterData::check_value(&value, spec, file_version) {
                 // find the attribute the element's attribute list
@@ -1272,9 +1276,14 @@ impl ElementRaw {
     ) -> Result<(), AutosarDataError> {
         if let Some(AttributeSpec {
             spec: character_data_spec,
+            version: version_mask,
             ..
         }) = self.elemtype.find_attribute_spec(attrname)
         {
+            // the attribute must exist in the version of the file
+            if !version.compatible(version_mask) {
+                return Err(AutosarDataError::InvalidAttribute);
+            }
             if let Some(value) = CharacterData::parse(stringvalue, character_data_spec, version) {
                 if let Some(attr) = self.attributes.iter_mut().find(|attr| attr.attrname == attrname) {
                     attr.content = value;
